@@ -61,6 +61,16 @@ CHECKS = {
    note="Trusted: TLC, pi. Preconditions of the statement are enabling conditions of the spec (no id reuse, delete only registered ids).",
    technique="TLA+ action property checked by TLC (MC_Reg); transitions replayed after genuine histories; TraceForest.tla judges prune/expand/import events",
    design="4/C14"),
+ "C15": dict(
+   text="TLC enumerates planting plans (3 skeletons x <=1/2 plantings (site, kind in unknown child / misplaced known child / invalid content / invalid attribute / starved required child) x strict); each is realised, pruned and judged relationally by TraceEml.tla PruneClauses on the logged pre/post projection, returned list, registry and observed validate.node outcomes: never raises; no offending node remains outside metadata content; strict: every remaining non-root node validates; kept nodes untouched and in order; whole subtrees removed; every cut reported once with a string; registry = before minus removed; only offending (or, strict, observed-invalid) nodes removed; second prune idle. Seeded 1-5 plantings at arbitrary depth on the EML fixture and on generated valid/invalid trees go through the same judge.",
+   note="Known / AllowedIn come from the rule table generated from the working tree. In strict mode a node cut from a parent that is itself cut later is legitimately listed (TLC taught us: first version of the clause was too strict).",
+   technique="plan enumeration by TLC (MC_Plans) + relational TLA+ judge (TraceEml.tla) evaluated by TLC on recorded prune calls",
+   design="4/C15"),
+ "C16": dict(
+   text="TLC enumerates plans: sequences of <=3 (thorough 4) party elements, each a definition or a reference to a same-rule definition placed before or after it, with/without trailing role, x one dangling reference / duplicated id at every position or none. Each is realised on a dataset skeleton, expanded and judged by TraceEml.tla ExpandClauses: every references node replaced in place by structurally equal fresh copies (CrossEq), sources and all other nodes unchanged, none left, registry exact, validity preserved (observed before/after), copies independent (every copy edited afterwards in every container, old nodes compared), and on a fault ValueError with the full projection unchanged. The EML fixture with seeded extra references and faults goes through the same judge.",
+   note="The precondition of the statement (same rule, referenced element reference-free) is enforced by the plan generator; the spec itself decides when expansion must fail.",
+   technique="plan enumeration by TLC (MC_Plans) + relational TLA+ judge (TraceEml.tla) evaluated by TLC on recorded expand calls",
+   design="4/C16"),
  "C17": dict(
    text="MC_Insert: for every rule x every existing child sequence over the rule's names up to a budget x every candidate, TLC computes the set Acceptable of indexes the statement allows (in bounds, keeps declared order, restores validity when some position does) and checks the bounded theorem RankIndex in Acceptable for the transcribed documented algorithm on the real table. The code's child_insert_index must answer inside TLC's set (ChildNotAllowedError exactly for foreign names); is_allowed_child is compared with 'occurs in some valid sequence'; long accepted sequences with one child removed are judged by TLC (TraceInsert.tla).",
    note="Precondition: each rule names a child at most once (others skipped and listed). Membership via the derivative automaton, cross-checked against the declarative definition in C01's MC_Words.",
